@@ -12,7 +12,8 @@ LEVEL = 'exploration'
 RULE = ('all formulas of the stated fragment (arithmetic, comparisons, Boolean operators, once/historically bounded or not, bounded eventually/always; '
         '<=2 operators, 3-chains) x all traces up to length n read both as a discrete trace and as a step signal sampled on the grid; sampling period '
         '1 s and 500 ms with bounds that are multiples of it; deep layers: bounds up to 7 over a two-letter alphabet (n=9/11) and single wide operators over three value levels (n=8/10); the real dense offline result read at k*period must equal the real discrete offline '
-        'result at sample k for every k with k + horizon < n; non-trivial = the reference output is not constant +-inf and the top operator mattered')
+        'result at sample k for every k with k + horizon < n; life layer: the same comparison on a discrete and a dense object that were both configured and evaluated under another default unit '
+        '(and sampling period) before and then switched with spec.unit / set_sampling_period (vf/reconf.py; bounds unit-less and with s / ms); non-trivial = the reference output is not constant +-inf and the top operator mattered')
 ASSUMPTIONS = ['both sides are the real implementation; the reference is only used for the horizon and the non-triviality count']
 
 OPS_U = ('not', 'once', 'historically', 'eventually', 'always')
@@ -49,7 +50,86 @@ def shards(tier):
     d3 = [(op, I, F.X) for op in ('once', 'historically', 'eventually', 'always') for I in ((2, 6), (3, 7), (2, 5), (0, 4))]
     d3 += [('always', (2, 6), ('eventually', (1, 2), F.X)), ('eventually', (3, 7), ('not', F.X)), ('or', ('eventually', (2, 6), F.X), ('once', (2, 6), F.X))]
     out += [{'formulas': [F.to_json(f)], 'deep3': True} for f in d3]
+    out += [{'formulas': [], 'life': i} for i in range(len(life_formulas()))]
     return out
+
+
+def life_formulas():
+    px, X = F.PX, F.X
+    return [('once', (0, 2), px), ('historically', (1, 2), X), ('eventually', (0, 2), X), ('always', (1, 2), px),
+            ('and', ('eventually', (0, 1), px), ('once', (1, 2), X)), ('always', (0, 1), ('eventually', (0, 1), X))]
+
+
+def dense_lived(text, vs, c0, c1):
+    """a dense offline object configured with the default unit of c0, evaluated once, then switched to the default unit of c1"""
+    from .. import reconf
+    u0, u1 = reconf.CONFIGS[c0][0], reconf.CONFIGS[c1][0]
+    spec = impl.build('ct_off', text, vs, unit=u0)
+    q0 = float(reconf.period_in_default_unit(c0))
+    impl.outcome(impl.ct_evaluate, spec, {v: [(0.0, 2.0), (q0, -1.0), (2 * q0, 2.0)] for v in vs})
+    if u1 != u0:
+        spec.unit = u1
+    return spec
+
+
+def life_case(case, objs=None):
+    from .. import reconf
+    f = F.from_json(case['formula'])
+    vs = case['vars']
+    if objs is None:
+        c1, f1, ds = reconf.lived_object('dt_off', f, case['suffix'], vs, case['life'])
+        name, c0, c1, steps = [l for l in reconf.lives() if l[0] == case['life']][0]
+        cs = dense_lived(case['spec'], vs, c0, c1)
+    else:
+        c1, f1, ds, cs = objs
+    w = case['trace']
+    n = len(next(iter(w.values())))
+    h = refsem.horizon(f1)
+    q = float(reconf.period_in_default_unit(c1))
+    k1, dv = impl.outcome(kinds.dt_values, 'dt_off', ds, w, reconf.times(c1, n))
+    k2, cv = impl.outcome(impl.ct_evaluate, cs, kinds.grid_signal(w, q))
+    if k1 != 'ok' or k2 != 'ok':
+        return 'evaluate() raised %s' % (dv if k1 != 'ok' else cv,)
+    for k in range(n):
+        if k + h < n:
+            c = dref.stepval(cv, k * q)
+            if not refsem.same(c, dv[k]):
+                return 're-configured objects (%s): dense value at t=%r is %r, discrete value at sample %d is %r' % (case['life'], k * q, c, k, dv[k])
+    return None
+
+
+def run_life(shard, tier, res, mod):
+    from .. import reconf
+    f = life_formulas()[shard['life']]
+    fj = F.to_json(f)
+    vs = sorted(F.fvars(f))
+    res.formulas += 1
+    n = 5 if tier == 'quick' else 6
+    for suffix in ('', 's', 'ms'):
+        text = 'out = ' + F.pr(f, bound=reconf.speller(suffix))
+        case0 = {'life_layer': True, 'formula': fj, 'vars': vs, 'suffix': suffix, 'spec': text}
+        for name, c1, f1, ds in reconf.lived_objects('dt_off', f, suffix, vs, res, mod, case0):
+            if F.max_bound(f1) > 100:
+                res.outcomes['life skipped: window of a thousand samples (dense result on a 5-sample signal is not settled anywhere)'] += 1
+                continue
+            c0 = [l for l in reconf.lives() if l[0] == name][0][1]
+            cs = dense_lived(text, vs, c0, c1)
+            for t in F.traces(n, F.V2, len(vs), minlen=2):
+                w = F.trace_dict(t, vs)
+                case = dict(case0, life=name, trace=w)
+                res.evaluations += 1
+                msg = life_case(case, (c1, f1, ds, cs))
+                if msg:
+                    res.violation(mod, case, msg)
+                    res.outcomes['disagree'] += 1
+                else:
+                    res.outcomes['agree'] += 1
+                    res.flags['life_cases'] += 1
+                    if len(t) > refsem.horizon(f1) and refsem.top_matters(f1, w, len(t)):
+                        res.nontrivial += 1
+                        res.flags['life_nontrivial'] += 1
+                res.digest(text, name, t, msg)
+    res.sample({'spec': text, 'lives': [l[0] for l in reconf.lives()][:4]}, 1)
 
 
 def half_bound(I):
@@ -87,6 +167,8 @@ def check_case(case, specs=None):
 
 def run_shard(shard, tier, res):
     mod = sys.modules[__name__]
+    if 'life' in shard:
+        return run_life(shard, tier, res, mod)
     quick = tier == 'quick'
     for fj in shard['formulas']:
         f = F.from_json(fj)
@@ -123,6 +205,9 @@ def run_shard(shard, tier, res):
 
 
 def replay(case):
+    if case.get('life_layer'):
+        m = life_case(case)
+        return [m] if m else []
     m = check_case(case)
     return [m] if m else []
 
@@ -131,4 +216,6 @@ def finalize(agg, outcomes, flags, tier):
     from ..runner import Broken
     if agg['nontrivial'] < 1000:
         raise Broken('vacuous: only %d non-trivial cases' % agg['nontrivial'])
-    return {}
+    if flags.get('life_nontrivial', 0) < 100:
+        raise Broken('vacuous: only %d non-trivial cases on re-configured objects' % flags.get('life_nontrivial', 0))
+    return {'cases_on_reconfigured_objects': flags.get('life_cases', 0)}
